@@ -9,6 +9,9 @@ pub const REQUIRED: &[&str] = &[
     "subdirectories_several",
     "localized_listing_equals_unlocalized",
     "ref_matcher_selftest",
+    "directory_with_more_than_64_entries_and_cross_layer_duplicates",
+    "more_than_32_nested_directories",
+    "layer_roots_with_non_ascii_names",
 ];
 
 pub fn run(cx: &mut Ctx) {
